@@ -335,6 +335,8 @@ class LoopGuard:
 
 
 def _clone(v):
+    if hasattr(v, 'pv_clone'):
+        return v.pv_clone()
     if isinstance(v, Seq):
         return v.copy()
     if isinstance(v, SymMap):
@@ -516,7 +518,18 @@ def run_target(target, repo=None, timeout_ms=QUICK_TIMEOUT_MS, tier='quick'):
         res['lib_pure'] |= ip.lib_pure
         res['lib_used'] |= ip.lib_used
         for ob in ip.obligations:
-            res['obligations'].append(discharge(ob, timeout_ms, target, ctx))
+            d = discharge(ob, timeout_ms, target, ctx)
+            prem = getattr(target, 'premise', None)
+            if prem is not None and d.get('result') == 'refuted' and prem(d['name']):
+                # an obligation that is a PREMISE of this property's argument (a contract owned by another property): when it
+                # fails, this property is not decided by the argument any more -- undecided here, a violation where it is owned
+                d['result'] = 'unknown'
+                d.setdefault('info', {})
+                d['premise_refuted'] = True
+                msg = 'premise `%s` (owned by %s) does not hold for the code: this property is not decided by its contract' % (d['name'], getattr(target, 'premise_owner', 'another property'))
+                if msg not in res['undecided']:
+                    res['undecided'].append(msg)
+            res['obligations'].append(d)
     return _finish(res, t0)
 
 
